@@ -456,6 +456,9 @@ func checkLen(c lenCase) error {
 // ---- (b) file level ----
 
 type fileCase struct {
+	// Order: the sequence in which HeaderComment (true) and PackageComment (false) are called;
+	// empty = all headers first. The texts are taken from Headers / Package in order.
+	Order     []bool   `json:"order,omitempty"`
 	Headers   []string `json:"headers"`
 	Package   []string `json:"package"`
 	Canonical string   `json:"canonical"`
@@ -464,10 +467,20 @@ type fileCase struct {
 
 func (c fileCase) file(noFormat bool) *recipe.File {
 	f := &recipe.File{Ctor: "NewFile", Args: []recipe.Text{"p"}}
-	for _, h := range c.Headers {
+	hi, pi := 0, 0
+	for _, isHeader := range c.Order {
+		if isHeader && hi < len(c.Headers) {
+			f.Ops = append(f.Ops, recipe.FileOp{Op: "HeaderComment", Args: []recipe.Text{recipe.Text(c.Headers[hi])}})
+			hi++
+		} else if !isHeader && pi < len(c.Package) {
+			f.Ops = append(f.Ops, recipe.FileOp{Op: "PackageComment", Args: []recipe.Text{recipe.Text(c.Package[pi])}})
+			pi++
+		}
+	}
+	for _, h := range c.Headers[hi:] {
 		f.Ops = append(f.Ops, recipe.FileOp{Op: "HeaderComment", Args: []recipe.Text{recipe.Text(h)}})
 	}
-	for _, h := range c.Package {
+	for _, h := range c.Package[pi:] {
 		f.Ops = append(f.Ops, recipe.FileOp{Op: "PackageComment", Args: []recipe.Text{recipe.Text(h)}})
 	}
 	f.Ops = append(f.Ops, recipe.FileOp{Op: "CanonicalPath", Args: []recipe.Text{recipe.Text(c.Canonical)}})
@@ -831,11 +844,21 @@ func TestC15(t *testing.T) {
 	hx.Replay(r, hx.Check[fileCase]{Name: "known_finding_probe", Fn: probeFile})
 	hx.Rapid(r, t, hx.Check[fileCase]{Name: "file_level", Fn: checkFile}, r.N(1000, 10000), func(rt2 *rapid.T) fileCase {
 		c := fileCase{Body: rapid.Bool().Draw(rt2, "body")}
-		for i, n := 0, rapid.IntRange(0, 4).Draw(rt2, "nheaders"); i < n; i++ {
+		nh, np := rapid.IntRange(0, 4).Draw(rt2, "nheaders"), rapid.IntRange(0, 4).Draw(rt2, "npkg")
+		if rapid.IntRange(0, 9).Draw(rt2, "many") == 0 {
+			// many file-level comments (sorting thresholds), called in interleaved order
+			nh, np = rapid.IntRange(5, 14).Draw(rt2, "nheadersmany"), rapid.IntRange(5, 14).Draw(rt2, "npkgmany")
+		}
+		for i := 0; i < nh; i++ {
 			c.Headers = append(c.Headers, genFileComment(rt2, fmt.Sprintf("HDR%dX", i)))
 		}
-		for i, n := 0, rapid.IntRange(0, 4).Draw(rt2, "npkg"); i < n; i++ {
+		for i := 0; i < np; i++ {
 			c.Package = append(c.Package, genFileComment(rt2, fmt.Sprintf("PKG%dX", i)))
+		}
+		if rapid.Bool().Draw(rt2, "interleave") {
+			for i := 0; i < nh+np; i++ {
+				c.Order = append(c.Order, rapid.Bool().Draw(rt2, "isheader"))
+			}
 		}
 		switch rapid.IntRange(0, 3).Draw(rt2, "canon") {
 		case 0:
